@@ -389,3 +389,206 @@ vk_harness!(c13_end_last_instruction, {
     stop_or_end_statement(false, 1);
 });
 
+
+// ---------------------------------------------------------------------------------------------------------------
+// C04: "what runs is what LIST shows" reduced to one-step obligations on every path that mutates the listing
+// (an edit history is a sequence of such steps; enter_direct recompiles exactly when the flag is set).
+use crate::lang::token::Token;
+use crate::lang::vh_line::mk_line;
+
+fn line_with_token(n: LineNumber) -> Line {
+    let mut t: Vec<Token> = Vec::new();
+    t.push(Token::Colon);
+    mk_line(n, t)
+}
+fn has_line(r: &Runtime, n: u16) -> bool {
+    // direct look-up in the store (Listing::line would also format the line, which is not the subject here)
+    crate::mach::vh_listing::stored(&r.listing, n)
+}
+/// One stored line with a symbolic number; returns it.
+fn one_stored_line(r: &mut Runtime) -> u16 {
+    let n = vk::any_u16();
+    vk::assume(n <= 65529);
+    r.listing.insert(line_with_token(Some(n)));
+    n
+}
+
+//@ prop: C04
+//@ tier: quick
+//@ unwind: 12
+//@ encodes: Runtime::enter_indirect; Listing::insert; Listing::remove
+//@ bounds: listing with one line (any number); entered line: any number, with a token (insert / replace) or without (delete present / delete absent); dirty, cont, cont_pc symbolic
+vk_harness!(c04_entering_a_line_marks_dirty, {
+    let mut r = Runtime::default();
+    let stored = one_stored_line(&mut r);
+    let dirty0 = vk::any_bool();
+    r.dirty = dirty0;
+    r.cont = state_of(vk::any_below(10));
+    r.state = State::Stopped;
+    let m = vk::any_u16();
+    vk::assume(m <= 65529);
+    let deletes = vk::any_bool();
+    let line = if deletes { mk_line(Some(m), Vec::new()) } else { line_with_token(Some(m)) };
+    r.enter_indirect(line);
+    let changed = !deletes || m == stored;
+    if changed {
+        vk_check!(r.dirty, "C04: an edit that changes the stored program must force recompilation before the next statement runs");
+    }
+    vk_check!(r.dirty || !dirty0, "C04: entering a line must never cancel a pending recompilation");
+    vk_check!(code_of_state(&r.cont) == 1, "C04: an edit cancels the continuation point (CONT must not resume into an edited program)");
+    // the listing reflects exactly the edit
+    vk_check!(has_line(&r, m) == !deletes, "C04: the entered line is stored / the bare number deletes it");
+    if m != stored {
+        vk_check!(has_line(&r, stored), "C04: entering a line must not touch other lines");
+    }
+    vk_cover!(deletes && m != stored && dirty0, "reach: delete absent line while dirty");
+    vk_cover!(deletes && m == stored, "reach: delete present line");
+    vk_cover!(!deletes && m == stored, "reach: replace line");
+    core::mem::forget(r);
+});
+
+//@ prop: C04
+//@ tier: quick
+//@ unwind: 12
+//@ encodes: Runtime::r#new_; Runtime::r#clear; Listing::clear
+//@ bounds: listing with one line (any number); dirty, tron, state, cont symbolic; 0..=3 stack entries
+vk_harness!(c04_new_empties_and_marks_dirty, {
+    let mut r = Runtime::default();
+    let stored = one_stored_line(&mut r);
+    r.dirty = vk::any_bool();
+    r.tron = vk::any_bool();
+    r.cont = state_of(vk::any_below(10));
+    havoc_stack(&mut r);
+    let ev = r.r#new_();
+    vk_check!(matches!(ev, Event::Stopped), "C04: NEW stops");
+    vk_check!(r.listing.is_empty() && !has_line(&r, stored), "C12: NEW leaves an empty listing");
+    vk_check!(r.dirty, "C04: NEW must force recompilation (nothing of the old program may run)");
+    vk_check!(code_of_state(&r.cont) == 1 && r.stack.len() == 0, "C04: NEW cancels the continuation and pending RETURN/NEXT frames");
+    vk_check!(!r.tron, "C12: NEW switches tracing off");
+    vk_cover!(true, "reach: new");
+    core::mem::forget(r);
+    core::mem::forget(ev);
+});
+
+//@ prop: C04
+//@ tier: quick
+//@ unwind: 12
+//@ encodes: Runtime::set_listing (run = false); Runtime::r#new_
+//@ bounds: old listing with one line (any number), loaded listing with one line (any number); dirty symbolic
+vk_harness!(c04_load_replaces_and_marks_dirty, {
+    let mut r = Runtime::default();
+    let old = one_stored_line(&mut r);
+    r.dirty = vk::any_bool();
+    r.cont = state_of(vk::any_below(10));
+    let mut l = Listing::default();
+    let new = vk::any_u16();
+    vk::assume(new <= 65529);
+    l.insert(line_with_token(Some(new)));
+    r.set_listing(l, false);
+    vk_check!(r.dirty, "C04: loading a program must force recompilation");
+    vk_check!(has_line(&r, new), "C04: after a load the listing is the loaded program");
+    vk_check!(old == new || !has_line(&r, old), "C04: nothing of the previous program survives a load");
+    vk_check!(code_of_state(&r.cont) == 1, "C04: a load cancels the continuation point");
+    vk_cover!(old != new, "reach: load different program");
+    core::mem::forget(r);
+});
+
+//@ prop: C04 C15
+//@ tier: quick
+//@ unwind: 12
+//@ encodes: Runtime::r#delete; LineNumber::try_from(Val); Listing::remove_range; Runtime::r#end
+//@ bounds: listing with one line (any number); DELETE operands: any Integer-valued Single pair 0..=65529 with from <= to (as the parser guarantees); dirty symbolic; direct mode
+vk_harness!(c04_delete_marks_dirty, {
+    let mut r = Runtime::default();
+    let stored = one_stored_line(&mut r);
+    let dirty0 = vk::any_bool();
+    r.dirty = dirty0;
+    r.state = State::Running;
+    r.pc = 5;
+    r.entry_address = 3;
+    let (a, b) = (vk::any_u16(), vk::any_u16());
+    vk::assume(a <= b && b <= 65529);
+    r.stack.push(Val::Single(a as f32)).unwrap();
+    r.stack.push(Val::Single(b as f32)).unwrap();
+    let got = r.r#delete();
+    let inside = stored >= a && stored <= b;
+    if a == 0 && b == 65529 {
+        // the bare form: rejected, nothing changes
+        vk_check!(got.is_err(), "C15: a bare DELETE is rejected");
+        vk_check!(has_line(&r, stored) && r.dirty == dirty0, "C15: a rejected DELETE changes nothing");
+    } else {
+        vk_check!(got.is_ok(), "C15: DELETE a-b with a valid range is accepted");
+        vk_check!(has_line(&r, stored) == !inside, "C15: DELETE removes exactly the lines inside the inclusive range");
+        if inside {
+            vk_check!(r.dirty, "C04: DELETE that removed a line must force recompilation");
+        }
+        vk_check!(r.dirty || !dirty0, "C04: DELETE must never cancel a pending recompilation");
+    }
+    vk_cover!(inside && !(a == 0 && b == 65529), "reach: delete removes the line");
+    vk_cover!(!inside, "reach: delete removes nothing");
+    core::mem::forget(r);
+    core::mem::forget(got);
+});
+
+//@ prop: C04 C14
+//@ tier: quick
+//@ unwind: 12
+//@ encodes: Runtime::r#renum; u16::try_from(Val); Listing::renum; Runtime::r#end
+//@ bounds: listing with one token-less line (any number); RENUM operands: any u16-valued Single triple; dirty symbolic; direct mode, no compile errors
+vk_harness!(c04_renum_marks_dirty, {
+    let mut r = Runtime::default();
+    let n = vk::any_u16();
+    vk::assume(n <= 65529);
+    r.listing.insert(mk_line(Some(n), Vec::new()));
+    let dirty0 = vk::any_bool();
+    r.dirty = dirty0;
+    r.state = State::Running;
+    r.pc = 5;
+    r.entry_address = 3;
+    let (new_start, old_start, step) = (vk::any_u16(), vk::any_u16(), vk::any_u16());
+    r.stack.push(Val::Single(new_start as f32)).unwrap();
+    r.stack.push(Val::Single(old_start as f32)).unwrap();
+    r.stack.push(Val::Single(step as f32)).unwrap();
+    let got = r.r#renum();
+    let now = if has_line(&r, n) { 1 } else { 0 };
+    match got {
+        Ok(_) => {
+            let renumbered = n >= old_start && new_start != n;
+            if renumbered {
+                vk_check!(r.dirty, "C04: RENUM that changed a line number must force recompilation");
+                vk_check!(now == 0 && has_line(&r, new_start), "C14: the renumbered line is stored under its new number only");
+            }
+            vk_check!(r.dirty || !dirty0, "C04: RENUM must never cancel a pending recompilation");
+        }
+        Err(_) => {
+            vk_check!(now == 1 && r.dirty == dirty0, "C14: a RENUM that fails must leave the program (and the recompilation flag) unchanged");
+        }
+    }
+    vk_cover!(matches!(got, Ok(_)) && n >= old_start && new_start != n, "reach: renum changes the number");
+    vk_cover!(got.is_err(), "reach: renum refused");
+    core::mem::forget(r);
+    core::mem::forget(got);
+});
+
+//@ prop: C04
+//@ tier: quick
+//@ unwind: 12
+//@ encodes: Runtime::enter_direct; Program::clear; Program::codegen (empty listing, empty direct line); Program::link; Link::link
+//@ bounds: compiled stale program [Literal(any), Print, End] in memory, listing EMPTY (every line deleted / NEW / empty load), dirty set; direct line without tokens
+vk_harness!(c04_recompile_when_listing_emptied, {
+    let mut r = Runtime::default();
+    // a previously compiled program is still in program memory
+    load_ops(&mut r, vec![Opcode::Literal(Val::Integer(vk::any_i16())), Opcode::Print, Opcode::End]);
+    let (old_entry, _, _) = r.program.link();
+    vk_check!(old_entry == 3, "setup: stale program occupies addresses 0..3");
+    r.state = State::Stopped;
+    r.dirty = true; // the edits that emptied the listing set the flag
+    r.enter_direct(mk_line(None, Vec::new()));
+    vk_check!(!r.dirty, "C04: running a direct statement recompiles the edited program and clears the flag");
+    // a fresh interpreter with an empty listing compiles to a single END before the direct code
+    vk_check!(r.entry_address == 1 && r.pc == 1, "C04: with an empty listing nothing of the old program may remain in program memory (direct code must start at address 1)");
+    vk_check!(matches!(r.program.get(0), Some(Opcode::End)), "C04: with an empty listing the stored program compiles to a lone END");
+    vk_check!(code_of_state(&r.state) == 4, "C04: the direct statement is ready to run");
+    vk_cover!(true, "reach: recompile empty listing");
+    core::mem::forget(r);
+});
